@@ -92,6 +92,18 @@ EmitFor(G) == /\ (tree.n = 0 => PrintT("@@EMIT@@" \o ToJson([queries |-> G])))
                      res |-> [i \in 1..Len(G) |-> Match(tree, G[i])],
                      nodw |-> {<<i, j>> \in AtomIdx(G) \X AtomIdx(G) : ~DistinctWitness(tree, G[i], G[j])}]))
 EmitSmall == EmitFor(GenSmallQ)
+\* group operators over operands that may sit at different depths
+GenGroupSet ==
+    {XOpt(a, b) : a \in SB, b \in SB}
+    \cup {XOpt(Bin(j, a, b), c) : j \in 1..2, a \in SC, b \in SC, c \in SC}
+    \cup {XOpt(a, Bin(j, b, c)) : j \in 1..2, a \in SC, b \in SC, c \in SC}
+    \cup {Un(k, a) : k \in 2..4, a \in SB}
+    \cup {Un(k, Bin(j, a, b)) : k \in 2..4, j \in 1..2, a \in SC, b \in SC}
+    \cup {XOnly(Un(k, a)) : k \in 2..3, a \in SC}
+    \cup {XOpt(Un(k, a), b) : k \in 2..3, a \in SC, b \in SC}
+    \cup {XOpt(a, Un(k, b)) : k \in 2..3, a \in SC, b \in SC}
+GenGroupQ == SetToSeq({q \in GenGroupSet : WellFormed(q)})
+EmitGroup == EmitFor(GenGroupQ)
 EmitFull == EmitFor(GenQ)
 
 \* ---- query texts
